@@ -19,7 +19,7 @@ EXPLANATION = (
     "the very message it then frames, the client checks len() of the to_vec() bytes it sends; (boundary-table) "
     "check_outbound is Err iff Some(limit) and size > limit (strict); (oversize-rows) on the Err edge the error hook is "
     "crossed, a notify yields None, a response yields an InternalError message whose id is copied from the rejected "
-    "message; (stays-usable) a dropped frame continues the writer/proxy loop. Assumption from the property: the limit is "
+    "message; (stays-usable) a dropped frame continues the writer/proxy loop; (delivered-unchanged) an admitted frame is written with a flushing send, or every path from a buffering feed to the writer's next wait crosses a flush, so a later dropped frame cannot strand it in the write buffer. Assumption from the property: the limit is "
     "large enough for the replacement error reply (not re-checked)."
 )
 ASSUMPTIONS = [
@@ -223,6 +223,8 @@ def run(facts, R):
                 R.check(w is None, "oversize-rows", fo.path, "replacement-id-before-frame",
                         "a replacement can be framed without carrying the request id", ss.get("span"), path=w)
 
+    delivered_flushed(facts, R)
+
     # ---------------- stays-usable -------------------------------------------------------------------------
     for path, recv_pats in (("websocket_server::writer_task::{closure#0}", ("recv", "try_recv")),
                             ("websocket_server::proxy_connection_with_limits::{closure#0}", ("next",))):
@@ -241,6 +243,26 @@ def run(facts, R):
             R.check(again and w is None, "stays-usable", b.path, "dropped-frame-continues",
                     "after an oversized frame is dropped the connection loop can end instead of reading the next message", b.span,
                     "loop continues (next recv crossed before any return)", path=w)
+
+
+def delivered_flushed(facts, R):
+    """(delivered-unchanged) a frame that passed the outbound guard reaches the peer: the sink write is a flushing
+    `send`, or every path from a buffering `feed`/`start_send` to the next wait on the outbound queue crosses a flush.
+    Otherwise a later dropped frame (`continue`) leaves admissible frames sitting in the write buffer."""
+    for path, recv_pats in (("websocket_server::writer_task::{closure#0}", ("recv",)),
+                            ("websocket_server::proxy_connection_with_limits::{closure#0}", ("next",))):
+        b = facts.body(path)
+        waits = [term_pt(b, i) for i, t in b.calls() if t["callee"]["name"] in recv_pats]
+        flushes = [term_pt(b, i) for i, t in b.calls() if t["callee"]["name"] in ("send", "flush", "send_all", "close") and "Sink" in (t["callee"]["path"] + str(t["callee"].get("trait")))]
+        feeds = [(i, t) for i, t in b.calls() if t["callee"]["name"] in ("feed", "start_send", "poll_ready") and "Sink" in (t["callee"]["path"] + str(t["callee"].get("trait")))]
+        sends = [(i, t) for i, t in b.calls() if t["callee"]["name"] == "send" and "Sink" in (t["callee"]["path"] + str(t["callee"].get("trait")))]
+        R.floor("delivered-unchanged", len(sends) + len(feeds), 1, "sink writes in " + b.path)
+        for i, t in feeds:
+            w = must_cross(b, [term_pt(b, i)], waits + return_points(b), flushes)
+            R.check(w is None, "delivered-unchanged", b.path, "a buffered frame is flushed before the writer waits again",
+                    "a frame written with `%s` (no flush) can stay in the write buffer while the writer waits for the next message - e.g. when the next queued "
+                    "message is dropped by the outbound guard: an admissible message is not delivered" % t["callee"]["name"], t.get("span"),
+                    "flush crossed before the next wait", path=w)
 
 
 def _notify_fact(f, want_notify):
